@@ -9,14 +9,14 @@ import (
 )
 
 type specOpts struct {
-	maxDepth   int
-	bases      []string
-	needAsk    bool     // every layer must preserve the ask facet
-	noKinds    map[string]bool
-	smallMTUs  bool // prefer small inner MTUs so that fragmentation happens
-	withRec    bool // insert a recording decorator under every layer
-	honestFrag bool // only generate fragmenting MTUs whose part count fits the header field
-	errClose   bool // sometimes put a transport beneath whose Close reports an error
+	maxDepth    int
+	bases       []string
+	needAsk     bool // every layer must preserve the ask facet
+	noKinds     map[string]bool
+	smallMTUs   bool // prefer small inner MTUs so that fragmentation happens
+	withRec     bool // insert a recording decorator under every layer
+	honestFrag  bool // only generate fragmenting MTUs whose part count fits the header field
+	errClose    bool // sometimes put a transport beneath whose Close reports an error
 	smallQueues bool // include very short receive queues (buffers are recycled after a few messages)
 }
 
